@@ -224,6 +224,15 @@ func (e *c14Env) execOut(tc *c14Case) (oracle, note string) {
 		if has("rt:" + k) {
 			tmd.Append(k, v)
 		}
+		// the same keys as a metadata.MD literal spells them when nobody lower-cases them
+		// (metadata.MD{"Content-Type": …}): whatever larking does with such a key, it is still
+		// the protocol's key
+		if has("RH:" + k) {
+			hmd[http.CanonicalHeaderKey(k)] = []string{v}
+		}
+		if has("RT:" + k) {
+			tmd[http.CanonicalHeaderKey(k)] = []string{v}
+		}
 	}
 	hs := hScript{RecvN: 1, Replies: []proto.Message{e.t.newRsp("r1", nil, 1), e.t.newRsp("r2", nil, 2)}}
 	if len(hmd) > 0 {
@@ -285,7 +294,7 @@ func (e *c14Env) execOut(tc *c14Case) (oracle, note string) {
 		}
 		return "", ""
 	}
-	isReserved := func(k string) bool { _, ok := reserved[k]; return ok }
+	isReserved := func(k string) bool { _, ok := reserved[strings.ToLower(k)]; return ok }
 	grpcLike := tc.Proto != "http"
 	// gRPC-web answers a call that produced no message with a trailers-only response: headers
 	// and trailers share the HTTP header block, so a key used in both cannot be kept apart.
@@ -454,7 +463,7 @@ func c14OutCases(thorough bool) []c14Case {
 	custom := []string{"h-two", "h-bin", "both", "t-two", "t-bin", "t-mid", "look"}
 	var reservedItems []string
 	for _, k := range []string{"content-type", "grpc-status", "grpc-message", "grpc-encoding", "grpc-status-details-bin", "trailer"} {
-		reservedItems = append(reservedItems, "rh:"+k, "rt:"+k)
+		reservedItems = append(reservedItems, "rh:"+k, "rt:"+k, "RH:"+k, "RT:"+k)
 	}
 	sort.Strings(reservedItems)
 	var sets [][]string
